@@ -3,4 +3,3 @@ package main
 import "verif/harness/spec"
 
 func runC10(s *spec.Spec, logPath string) { fatal("C10 not implemented") }
-func runC14(s *spec.Spec, logPath string) { fatal("C14 not implemented") }
